@@ -403,6 +403,22 @@ def t1_loops(facts, rep, seen):
             k += 1
             key = "%s|loop#%d" % (short, k)
             used.add(key)
+            if key not in LOOPS:
+                # an unlisted loop (moved by a refactoring, or new) that has one of the machine-checked shapes carries its
+                # own termination argument: a Vec that is popped on every iteration and not refilled
+                auto = None
+                for kind_ in ("pop",):
+                    try:
+                        ok_, why_ = STRUCT[kind_](body, h, blk, lat)
+                    except Exception:
+                        ok_, why_ = False, ""
+                    if ok_:
+                        auto = (kind_, why_)
+                        break
+                if auto is not None:
+                    n_iter += 1
+                    rep.ok("T1", short, "%s-driven loop at bb%d" % (auto[0], h), auto[1])
+                    continue
             if not rep.check(key in LOOPS, "T1", short, "loop#%d" % k, "loop without a termination argument in a function reachable from a verifier entry point (%s); an untrusted proof must not be able to make a verifier spin" % why, site=body.term(h).get("ln") or body.span, detail="listed: " + LOOPS.get(key, ("", ""))[1]):
                 continue
             (kind, reason) = LOOPS[key]
